@@ -99,24 +99,21 @@ class SSCChart(BaseChart):
             raise ValueError("expected NOTEDATA property first")
 
         for param in iterator:
-            if (
-                param.key in BaseSimfile.MULTI_VALUE_PROPERTIES
-                and param.value is not None
-            ):
-                self[param.key] = ":".join(param.components[1:])
+            key = param.key.upper()
+            if key in BaseSimfile.MULTI_VALUE_PROPERTIES and param.value is not None:
+                self[key] = ":".join(param.components[1:])
             else:
-                self[param.key] = param.value
-            if param.value is self.notes:
+                self[key] = param.value
+            if key in ("NOTES", "NOTES2"):
                 break
 
     def serialize(self, file):
         file.write(f"{MSDParameter(('NOTEDATA', ''))}\n")
-        notes_key = "NOTES"
+        notes_key = "NOTES2" if "NOTES" not in self and "NOTES2" in self else "NOTES"
 
         for (key, value) in self.items():
             # Either NOTES or NOTES2 must be the last chart property
-            if value is self.notes:
-                notes_key = key
+            if key == notes_key:
                 continue
             if value is None:
                 param = MSDParameter((key,))
@@ -126,7 +123,8 @@ class SSCChart(BaseChart):
                 param = MSDParameter((key, value))
             file.write(f"{param}\n")
 
-        notes_param = MSDParameter((notes_key, self[notes_key]))
+        notes = self[notes_key]
+        notes_param = MSDParameter((notes_key,) if notes is None else (notes_key, notes))
         file.write(f"{notes_param}\n\n")
 
 
